@@ -25,6 +25,16 @@ class S(str):
     pass
 
 
+class Shade(str, enum.Enum):      # str() of a member is 'Shade.DARK', json.dumps gives "dark" (D36)
+    DARK = 'dark'
+
+
+class S2(str):
+    def __str__(self):
+        return '<S2>'
+    __repr__ = __str__
+
+
 class L(list):
     pass
 
@@ -91,6 +101,8 @@ def base_pool():
     # instances of subclasses
     out += [Color.RED, S('a'), S('1'), L([1, (2,)]), F(1.0), P2(1, [2]), collections.OrderedDict([('b', 1), ('a', 2)]),
             {S('k'): 1}, {Color.RED: 'enum key'}, collections.defaultdict(list, {'a': [1]})]
+    # ... whose str() differs from their contents
+    out += [Shade.DARK, [Shade.DARK], {Shade.DARK: 1}, {'k': Shade.DARK}, S2('a'), {S2('k'): S2('v')}, (S2('1'), 1)]
     return out
 
 
